@@ -633,7 +633,7 @@ fn mapping_atomic_applicable_member_types_inner(
                 }
             }
 
-            let is_subtype = member_types.len() == atomic.vs.len();
+            let is_subtype = member_types.len() == values.len();
             if !is_subtype
                 && let Some(v) = &atomic.indexed_properties
                 && v.key.is_all_strings()
